@@ -429,6 +429,11 @@ class Prop:
                 # traceback) before it is dropped
                 holder["af_exc"] = ["AttributeError", "AttributeError", "ValueError",
                                     "TraitError"][op["n"] % 4]
+                if cfg.get("storm"):
+                    # the interpreter's warning machinery keeps process-wide registries:
+                    # what it allocates depends on earlier runs, and in storm mode every
+                    # allocation is a collection point - no collections inside this op
+                    gc.disable()
 
                 def looked_at(f, *a2):
                     try:
@@ -440,9 +445,19 @@ class Prop:
                     except RecursionError:
                         pass
                     except Exception as exc:      # noqa: BLE001
-                        import traceback as _tb
-                        repr(exc), repr(exc.__cause__), repr(exc.__context__)
-                        _tb.format_exception(type(exc), exc, exc.__traceback__)
+                        # (no traceback / linecache: their process-wide caches would make
+                        # the allocation pattern depend on earlier runs)
+                        seen = 0
+                        while exc is not None and seen < 6:
+                            repr(exc), str(exc), exc.args
+                            tb = exc.__traceback__
+                            while tb is not None:
+                                tb.tb_frame.f_code.co_name
+                                tb = tb.tb_next
+                            nxt = exc.__cause__ or exc.__context__
+                            exc = nxt
+                            seen += 1
+                        exc = nxt = tb = None
                 # (in this world earlier ops may have left the class in a state in which
                 # even construction raises: any Python exception is a legal outcome)
                 fresh_o = safe(Adv)
@@ -455,6 +470,8 @@ class Prop:
                     looked_at(setattr, fresh_o2, "af", v)
                     looked_at(delattr, fresh_o2, "af")
                 del fresh_o, fresh_o2
+                if cfg.get("storm"):
+                    gc.enable()
             elif k == "orig_default":
                 # first reads / assignments / deletions on fresh objects (defaults not yet
                 # computed) of the original-value traits
